@@ -3,6 +3,7 @@ package main
 import (
 	"fmt"
 	"os"
+	"runtime/pprof"
 	"strconv"
 	"strings"
 
@@ -10,6 +11,11 @@ import (
 )
 
 func main() {
+	if pf := os.Getenv("CPUPROF"); pf != "" {
+		f, _ := os.Create(pf)
+		pprof.StartCPUProfile(f)
+		defer pprof.StopCPUProfile()
+	}
 	p, err := sym.LoadProgram("/verif/harness")
 	if err != nil {
 		fmt.Println(err)
@@ -17,6 +23,10 @@ func main() {
 	}
 	fmt.Println("loaded in", p.LoadTime)
 	h := &sym.Harness{Pkg: os.Args[1], Func: os.Args[2]}
+	if mp := os.Getenv("MAXPATHS"); mp != "" {
+		v, _ := strconv.Atoi(mp)
+		h.MaxPaths = v
+	}
 	h.Verbose = os.Getenv("V") != ""
 	for _, a := range os.Args[3:] {
 		if a == "trace" {
@@ -47,6 +57,7 @@ func main() {
 	for _, e := range rep.SolverErrors {
 		fmt.Println("SOLVER:", e)
 	}
+	fmt.Println("modeltime:", rep.ModelTime)
 	fmt.Println("reaches:", rep.Reaches)
 	fmt.Println("assumptions:", rep.Assumptions)
 }
